@@ -20,7 +20,7 @@ import (
 // Gob is called once, first thing in the child.
 func Gob() {
 	defer func() { _ = recover() }()
-	k := gen.Knobs{MaxDepth: 3, FieldP: 16, MaxList: 2, Budget: 400, Links: true, ValueForms: false}
+	k := gen.Knobs{MaxDepth: 3, FieldP: 16, MaxList: 2, Budget: 400, Links: true, ValueForms: false, SmallNumbers: true}
 	t := core.NewTape(0x9a7b)
 	g := gen.New(t, k)
 	roundTrip := func(it ap.Item) {
